@@ -302,7 +302,51 @@ def fam_trap(tier, rng):
     return out
 
 
-FAMILIES = [fam_goto, fam_gosub, fam_trap]
+def fam_pending(tier, rng):
+    """a statement fails, under a handler, inside a FUNCTION that was called while the caller had an operand
+    pending: after RESUME NEXT / RESUME the caller must still find ITS operand"""
+    out = []
+    for kind in ("div", "ovf", "subscript", "argnest"):
+        for mode in ("resumenext", "onerrornext", "resume"):
+            for depth in (1, 2):
+                b = B()
+                q = var("Q", "I")
+                f, code = failing(b, kind)
+                # the failing statement keeps an operand on the value stack: 7 + (failing expression) where possible
+                if f["k"] == "let" and f["lhs"]["k"] == "var":
+                    f["e"] = bin_("+", lit("I", 7), par(f["e"]))
+                fb = [b.dim("AR", "I", [{"lo": lit("I", 0), "hi": lit("I", 3), "nolo": False}]), b.let(var("M", "I"), lit("I", 32767))]
+                if mode == "resume":
+                    fb.append(b.let(q, var("GQ", "I")))          # the handler repairs the SHARED GQ%; the body re-reads it
+                fb += [tok(b, "f-in"), f, tok(b, "f-out"), b.let(var("FB", "I"), lit("I", 1))]
+                subs = [fun("FB", "I", [("X", "I")], fb)] + (call_subs(b) if kind in CALLKINDS else [])
+                c1 = fcall("FB", "I", [lit("I", 0)], 0)
+                e = bin_("+", lit("I", 100), c1)
+                if depth == 2:
+                    c0 = fcall("FO", "I", [lit("I", 0)], 0)
+                    inner = b.let(var("FO", "I"), e)
+                    c1["sid"] = inner["id"]
+                    subs.append(fun("FO", "I", [("X", "I")], [tok(b, "o-in"), inner]))
+                    st = tok(b, "res", bin_("*", lit("I", 2), c0))
+                    c0["sid"] = st["id"]
+                else:
+                    st = tok(b, "res", e)
+                    c1["sid"] = st["id"]
+                tail = [tok(b, "after"), b.end()]
+                if mode == "onerrornext":
+                    main = [b.onerror("next"), st] + tail
+                elif mode == "resumenext":
+                    main = [b.onerror("goto", "H"), st] + tail + [b.label("H"), tok(b, "h", {"k": "err"}), b.resume("next")]
+                else:
+                    main = [b.dim("GQ", "I", shared=True), b.onerror("goto", "H"), st] + tail + \
+                        [b.label("H"), tok(b, "h", {"k": "err"}), b.let(var("GQ", "I"), lit("I", 1)), b.resume("bare")]
+                    if kind in ("ovf",):
+                        continue
+                out.append({"fam": "pending:%s/%s/%d" % (kind, mode, depth), "prog": prog(main, subs)})
+    return out
+
+
+FAMILIES = [fam_goto, fam_gosub, fam_trap, fam_pending]
 
 
 def cases(tier, seed):
